@@ -50,7 +50,7 @@ CLAIMED = {
   ref="DESIGN.md §5 C06"),
  'C07': dict(
   text="Symbolic execution of the real MIR of Context::lookup, Registry::lookup, lookup_with_prefix and lookup_exact on a symbolic database: every stem of a universe of colliding names (s, m, in, ins, min, is, ks ...) may or may not be a base unit and/or a unit with an arbitrary value, three prefixes (k, ki, m) carry arbitrary values, the previous answer is present or not - all 2^14 (thorough 2^18) configurations at once; for 18 query names z3 decides that the result is the first reading in the order ans > exact base unit > exact unit > first matching prefix in list order > the same chain without a trailing s, and None only when no reading exists.",
-  note="BTreeMap/BTreeSet are the symbolic-presence association model (std contract). Bounds: the name universe listed in the evidence; prefix list order fixed. OUTSIDE: canonicalize (value preservation needs database well-formedness assumptions; not claimed), the loader's Resolver::lookup, the 500k-name exhaustive sweep over the bundled database, determinism (a pure function of &Registry).",
+  note="BTreeMap/BTreeSet are the symbolic-presence association model (std contract). Bounds: the name universe listed in the evidence; prefix list order fixed. OUTSIDE: the loader's Resolver::lookup, the 500k-name exhaustive sweep over the bundled database, alias chains in canonicalize.",
   technique="symbolic execution of rustc MIR + z3 over a symbolic database (presence Booleans)",
   ref="DESIGN.md §5 C07"),
  'C09': dict(
@@ -60,14 +60,34 @@ CLAIMED = {
   ref="DESIGN.md §5 C09"),
  'C14': dict(
   text="Symbolic execution of the real MIR of to_duration, from_duration, the DateTime arms of Value +/- and the Conversion::Offset arm of eval_query (with parse_offset on symbolic digit strings): durations are written (k+e)/10^9 s with k an unbounded Int and 0<=e<1, instants are Ints; z3 decides (d+t)-d = t and (d-t)+t = d for every whole-nanosecond t and every instant in range, truncation toward zero otherwise, refusal (never a panic) outside the documented range, that re-zoning keeps the instant and that offsets beyond +-24 h are refused.",
-  note="chrono is replaced by its documented contract (TimeDelta = Int ns within +-i64::MAX ms with its documented panics; DateTime = (instant, zone) within an abstract interval [DT_MIN, DT_MAX] that contains +-10^18 ns; FixedOffset::east_opt is Some iff |s| < 86400). Stubs: eval_expr -> arbitrary DateTime, DateReply::new -> record, Show::show. OUTSIDE: the pattern-driven date parser, named-zone tables (chrono-tz), calendar correctness of chrono itself.",
+  note="chrono is replaced by its documented contract (TimeDelta = Int ns within +-i64::MAX ms with its documented panics; DateTime = (instant, zone) within an abstract interval [DT_MIN, DT_MAX] that contains +-10^18 ns; FixedOffset::east_opt is Some iff |s| < 86400). Stubs: eval_expr -> arbitrary DateTime, DateReply::new -> record, Show::show. OUTSIDE: whole date patterns (only single pattern elements and the offset handling of attempt() are encoded), named-zone tables (chrono-tz), calendar correctness of chrono itself.",
   technique="symbolic execution of rustc MIR + z3, library contracts for chrono",
   ref="DESIGN.md §5 C14"),
  'C19': dict(
   text="Kani/CBMC on the real sandbox/src/alloc.rs (included by #[path]): all histories of 2..3 (thorough 4) operations over {alloc, alloc_zeroed, realloc, dealloc} with symbolic sizes, limit and slot choice are decided in one SAT query each against a ghost model (usage = sum of live sizes, success => within limit, refusal => block intact and usage unchanged, peak >= largest usage). Counterexamples are replayed natively from Kani's concrete values.",
-  note="Trusted: CBMC's malloc/realloc model stands for System and never fails; unwinding assertions on. Bounds: <= 4 operations, 2 live blocks, limit <= 2^16 (anylimit harnesses: usize::MAX/4), single thread. OUTSIDE: concurrency (see mirsym part when present), weak memory, >4 operations.",
+  note="Trusted: CBMC's malloc/realloc model stands for System and never fails; unwinding assertions on. Bounds: <= 4 operations, 2 live blocks, limit <= 2^16 (anylimit harnesses: usize::MAX/4), single thread. OUTSIDE: weak memory, >4 operations, more than 2 threads.",
   technique="bounded model checking of compiled Rust (Kani -> CBMC -> SAT)",
   ref="DESIGN.md §4, §5 C19"),
+}
+
+# what was added after the first registration (appended to the texts above)
+ADD_TEXT = {
+ 'C01': " Added: the real parse_expr + eval_expr on all operator sequences of 3 (thorough 4) symbolic operands against an independent evaluator written from the manual (precedence, associativity, unary minus), and literal shapes up to the 64-bit boundaries of the radix parsers.",
+ 'C04': " Added: parse_query on the `-> [digits N] [base B] [target]` suffix with symbolic digits (an accepted base lies in 2..=36), to_duration on float seconds (NaN, infinite, finite), the date offset matcher with hours of 1..10 digits, attempt() on out-of-range offsets.",
+ 'C05': " Added: counterexamples are replayed by calling BigRat::to_scientific / BigRat::to_string natively and re-reading the numeral with exact fractions (sign, radix point, recurring block, stated period, exponent); the fraction shown as exact companion of an approximate numeral is decided to be numer/denom of the value; the long division of to_digits_impl is decided by loop-head induction: the real prologue establishes the start state, and one real iteration from the specified state `n digits produced` (digits, remainders, text so far, remembered remainders) either returns a numeral that denotes the value (exact / recurring with the bracket at the right offset and the stated period equal to the block length / truncated within one unit of the last digit) or arrives at the loop head in the state `n+1 digits produced`.",
+ 'C07': " Added: Context::canonicalize followed by lookup preserves the value (symbolic database with long/short prefix pairs and names that split two ways); lookup(first); lookup(second) on one context equals lookup(second) on an identical fresh context for 9 name pairs with two prefix readings (history independence); static scan: no iteration over a std HashMap/HashSet in rink-core. Counterexamples are replayed on a Registry built natively from the model.",
+ 'C09': " Added: the Duration reply of eval_query (automatic year/week/day/hour/minute/second breakdown) through the real arm with database constants.",
+ 'C14': " Added: parse_date pattern elements (13 numeric elements, fractional seconds of 1..10 digits, offsets +hhmm / +h..h:mm) on symbolic digit strings; attempt() on the offset pattern with chrono's Parsed conversions by contract: the instant carries exactly the offset written and offsets of 24 h or more are refused; to_duration on float seconds.",
+ 'C15': " Added: the parsed query handed to the wrapper is an arbitrary Query (every variant and conversion-target kind), and the post-state obligation covers use_humanize as well as the feature flag, registry and temporaries.",
+ 'C16': " Added: counterexamples are replayed on a Substance / symbol table built natively from the model (public fields) and judged with exact fractions.",
+ 'C19': " Second engine (mirsym on the MIR of the same file): one step of each operation from an arbitrary state (usage, peak, limit, sizes, parent failure) and two threads running one operation each with every sequentially consistent interleaving of their atomic operations enumerated as solver-checked decisions; native replay by reaching the state through the public API and by a two-thread stress run (one with a limit both blocks cannot fit under).",
+}
+ADD_NOTE = {
+ 'C04': " tools/panic_surface.py lists the functions with panic sites that no harness enters (17 of 51 reachable from the query entry points at the time of writing: factorize, fast_decompose, expand_aliases, describe_unit, search_impl, parse_unitlist, parse_function, reply Display impls ...): outside the claim.",
+ 'C05': " The note above predates the loop-head induction: the digits ARE now decided, one iteration at a time, within the bounds base 10 / intdigits 1..2 (thorough 1..3) / at most 13 (thorough 14) digits produced before the iteration / budgets Default, 2 and 12 digits (thorough Default, 0, 3, 12; base 2 up to 10 digits; base 16 up to 5 digits with blocks of at most 4). BigInt::size_in_base is replaced by its arithmetic contract (true digit count or one more), BigRat::is_recurring by its contract inside the step (its real code is decided separately). OUTSIDE: integer parts of more than 3 digits, longer runs (e.g. the 1000-digit budget of `to digits`), bases other than 2/10/16.",
+ 'C07': " (canonicalize is now claimed under the stated well-formedness assumption: every unit has a definition, long and short spellings of a prefix carry the same value.)",
+ 'C14': " Float seconds: NaN, infinities and finite floats up to 2^52 s; beyond that the rounding of v*1000 decides and the value model of floats cannot settle it.",
+ 'C19': " Engine M bounds: 2 threads x 1 operation, sequential consistency at atomic-call granularity (no weak-memory reordering), sizes <= 2^62.",
 }
 
 NA = {
@@ -98,8 +118,8 @@ def main():
             'evidence_file': '/verif/evidence/%s.json' % pid,
             'replay_cmd_template': './check replay {path}',
             'engine': 'kani+mirsym' if pid == 'C19' else 'mirsym',
-            'level_claimed': {'category': 'model_checking', 'text': c['text'], 'design_ref': c['ref']},
-            'level_note': c['note'],
+            'level_claimed': {'category': 'model_checking', 'text': c['text'] + ADD_TEXT.get(pid, ''), 'design_ref': c['ref']},
+            'level_note': c['note'] + ADD_NOTE.get(pid, ''),
             'technique': c['technique'],
         })
     na = [{'property_id': k, 'reason': v} for k, v in sorted(NA.items())]
